@@ -50,6 +50,8 @@ type GenesisSpec struct {
 	BuiltinDids  string
 	ValidatorIdx []int // indexes of accounts that are validator operators
 	ValSelfBond  int64
+	ValBonds     []int64 // optional per-validator self bond (overrides ValSelfBond)
+	MaxVals      uint32
 }
 
 type Chain struct {
@@ -132,6 +134,9 @@ func NewChain(spec GenesisSpec, startTime time.Time) (*Chain, error) {
 	// staking: bonded validators with a self delegation
 	stParams := stakingtypes.DefaultParams()
 	stParams.BondDenom = Denom
+	if spec.MaxVals > 0 {
+		stParams.MaxValidators = spec.MaxVals
+	}
 	var vals []stakingtypes.Validator
 	var dels []stakingtypes.Delegation
 	bondedTotal := int64(0)
@@ -144,7 +149,11 @@ func NewChain(spec GenesisSpec, startTime time.Time) (*Chain, error) {
 		}
 		valAddr := sdk.ValAddress(op.Addr)
 		c.ValAddrs = append(c.ValAddrs, valAddr)
-		bond := sdk.NewInt(spec.ValSelfBond)
+		sb := spec.ValSelfBond
+		if k < len(spec.ValBonds) {
+			sb = spec.ValBonds[k]
+		}
+		bond := sdk.NewInt(sb)
 		v := stakingtypes.Validator{
 			OperatorAddress:   valAddr.String(),
 			ConsensusPubkey:   pkAny,
@@ -160,7 +169,7 @@ func NewChain(spec GenesisSpec, startTime time.Time) (*Chain, error) {
 		}
 		vals = append(vals, v)
 		dels = append(dels, stakingtypes.NewDelegation(op.Addr, valAddr, sdk.NewDecFromInt(bond)))
-		bondedTotal += spec.ValSelfBond
+		bondedTotal += sb
 	}
 	stGen := stakingtypes.NewGenesisState(stParams, vals, dels)
 	gen[stakingtypes.ModuleName] = enc.Marshaler.MustMarshalJSON(stGen)
@@ -367,4 +376,18 @@ func (c *Chain) RefreshAccount(a *Account) {
 
 func init() {
 	_ = cryptocodec.RegisterInterfaces
+}
+
+// signedTxBytes builds the bytes of a signed tx without delivering it (for Simulate / CheckTx).
+func (c *Chain) signedTxBytes(signer *Account, gas uint64, msgs ...sdk.Msg) []byte {
+	tx, err := helpers.GenSignedMockTx(c.rnd, c.Enc.TxConfig, msgs, sdk.NewCoins(), gas, ChainID,
+		[]uint64{signer.AccNum}, []uint64{signer.Seq}, signer.Priv)
+	if err != nil {
+		panic(err)
+	}
+	bz, err := c.Enc.TxConfig.TxEncoder()(tx)
+	if err != nil {
+		panic(err)
+	}
+	return bz
 }
